@@ -217,7 +217,7 @@ def gen_corpus(rng, words):
     return b"".join(b" ".join(rng.choice(words) for _ in range(rng.range(1, 7))) + b"\n" for _ in range(n))
 
 
-WEIGHT_POOL = [0.5, 0.25, 0.75, 1.0, 0.125, 1.5, 2.0, -0.25, -0.5, 0.0, 0.3, 0.7, 0.1, 1.2, -0.1, 0.6, 0.4, 3.0]
+WEIGHT_POOL = [0.5, 0.25, 0.75, 1.0, 0.125, 1.5, 2.0, -0.25, -0.5, 0.0, 0.3, 0.7, 0.1, 1.2, -0.1, 0.6, 0.4, 3.0, -1.0, -1.0, -2.0, 2.0, 1.0, 3.0]
 
 
 def gen_case(rng, mixed):
@@ -351,6 +351,29 @@ def oracle_bse(case, out):
     return None
 
 
+def gen_pruned_case(rng):
+    """tuples of orders 2/3/4 in which some components are heavily pruned: whole orders of a component hold no n-gram at all
+    (`lmplz --prune 0 0 1000` writes `Counts 15 167 0`), below or at the maximum order of the tuple, in any position"""
+    k = rng.choice([2, 2, 3, 4])
+    allw = [b"a", b"b", b"c", b"d", b"e", b"f", b"g"]
+    comps = []
+    for i in range(k):
+        ws = allw[rng.below(3):][:rng.range(3, 6)]
+        comps.append({"corpus": b"".join(b" ".join(rng.choice(ws) for _ in range(rng.range(2, 7))) + b"\n" for _ in range(rng.choice([6, 15, 30]))),
+                      "order": rng.choice([2, 3, 3, 4])})
+    victims = [rng.below(k)] + ([rng.below(k)] if rng.chance(1, 3) else [])
+    for v in set(victims):
+        o = comps[v]["order"]
+        first_empty = rng.range(2, o)                          # orders first_empty .. o lose every n-gram
+        comps[v]["prune"] = [0] * (first_empty - 1) + [1000] * (o - first_empty + 1)
+    if rng.chance(1, 2):                                        # make sure some component is of higher order than a pruned one
+        comps[(victims[0] + 1) % k]["order"] = 4
+    weights = [rng.choice(WEIGHT_POOL) for _ in range(k)]
+    if all(w == 0.0 for w in weights):
+        weights[0] = 1.0
+    return {"comps": comps, "weights": weights, "mem": list(rng.choice(MEM_CONFIGS))}
+
+
 def gen_single(rng):
     c = gen_case(rng, False)
     return {"comps": c["comps"][:1], "weights": [1.0]}
@@ -364,8 +387,9 @@ def build(ctx, tools, case, tag):
     prefixes = []
     for i, c in enumerate(case["comps"]):
         p = os.path.join(d, "m%d" % i)
+        prune = (["--prune"] + [str(x) for x in c["prune"]]) if c.get("prune") else []
         rc, out, err = vlib.sh(["timeout", "60", tools["lmplz"], "-o", str(c["order"]), "-S", "20M", "--vocab_estimate", "1000",
-                                "-T", d + "/", "--discount_fallback", "--intermediate", p], input=c["corpus"], timeout=90)
+                                "-T", d + "/", "--discount_fallback"] + prune + ["--intermediate", p], input=c["corpus"], timeout=90)
         if rc != 0 or not os.path.exists(p + ".kenlm_intermediate"):
             return None, "lmplz rc=%d: %s" % (rc, err[-200:])
         prefixes.append(p)
@@ -376,6 +400,32 @@ def fmt_w(w):
     return repr(w)
 
 
+def weight_spellings(w):
+    """ways of typing the same number on the command line (all accepted by the unchanged tool)"""
+    forms = [repr(w), "%f" % w, "%.3e" % w]
+    if w == int(w):
+        i = int(w)
+        forms += [str(i), str(i), "%d." % i, "%d.0" % i, "%de0" % i] + (["+%d" % i] if i >= 0 else [])
+    else:
+        t = repr(w)
+        if t.startswith("0."):
+            forms += [t[1:], "+" + t]
+        if t.startswith("-0."):
+            forms += ["-" + t[2:]]
+        forms += ["%se-1" % repr(round(w * 10, 6))] if abs(w) < 10 and round(w * 10, 6) / 10 == w else []
+    return forms
+
+
+def spell_weights(rng, case):
+    """pick a spelling per weight; the numeric value that the oracle and the model use is float() of what is typed"""
+    texts = []
+    for w in case["weights"]:
+        texts.append(rng.choice(weight_spellings(w)))
+    case["weights_text"] = texts
+    case["weights"] = [float(t) for t in texts]
+    return case
+
+
 MEM_CONFIGS = [("20M", "1M"), ("20M", "64K"), ("5M", "256K"), ("1M", "4K"), ("100K", "1K"), ("64K", "256b"), ("2K", "256b")]     # -S >= 4 * --sort_block
 TINY_BLOCKS = [("100K", "1K"), ("1M", "1K"), ("64K", "256b"), ("2K", "256b"), ("20K", "512b")]
 # -S at the minimum the tool accepts (four sort buffers) and just above it, for blocks of 64 bytes .. 2K
@@ -384,7 +434,7 @@ MIN_MEM = [("%db" % (4 * b + d), "%db" % b) for b in (64, 128, 256, 512, 1024, 2
 
 def run_interpolate(ctx, tools, prefixes, weights, tag, mem=("20M", "1M")):
     d = os.path.join(ctx.scratch, tag)
-    args = ["timeout", "60", tools["interpolate"], "-m"] + prefixes + ["-w"] + [fmt_w(w) for w in weights] + \
+    args = ["timeout", "60", tools["interpolate"], "-m"] + prefixes + ["-w"] + [w if isinstance(w, str) else fmt_w(w) for w in weights] + \
         ["-S", mem[0], "--sort_block", mem[1], "-T", d + "/tmp_"]
     import time
     for attempt in range(6):
@@ -405,7 +455,8 @@ def check_case(ctx, tools, case, tag="i"):
         return {"status": "skip", "msg": "lmplz produced a non-finite back-off (degenerate corpus); not a log-linear input"}
     weights = [f32(w) for w in case["weights"]]
     mem = tuple(case.get("mem", MEM_CONFIGS[0]))
-    rc, out, err = run_interpolate(ctx, tools, prefixes, case["weights"], tag, mem)
+    typed = case.get("weights_text") or case["weights"]
+    rc, out, err = run_interpolate(ctx, tools, prefixes, typed, tag, mem)
     orders = [c["order"] for c in comps]
     res = {"status": "ok", "orders": orders, "comps": comps, "weights": weights, "rc": rc, "mem": mem}
     words = sorted(set().union(*[set(c["vocab"]) for c in comps]) - {b"<unk>"})
@@ -416,7 +467,7 @@ def check_case(ctx, tools, case, tag="i"):
     res["model_line"] = model_line(comps, weights, ids)
     if rc == 0 and case.get("mem2"):
         # the same inputs under a second memory / block-size setting: same bytes, or at least the same verdict
-        rc2, out2, err2 = run_interpolate(ctx, tools, prefixes, case["weights"], tag, tuple(case["mem2"]))
+        rc2, out2, err2 = run_interpolate(ctx, tools, prefixes, typed, tag, tuple(case["mem2"]))
         res["mem2_identical"] = (rc2 == 0 and out2 == out)
         if rc2 != 0:
             res.update(status="fail", sig="interpolate:exit-status", rc=rc2,
@@ -565,7 +616,9 @@ def run(ctx):
             [("single", gen_single(rng)) for _ in range(ctx.pick(6, 100))] + \
             [("many", gen_many_models_case(rng)) for _ in range(ctx.pick(3, 40))] + \
             [("list", gen_list_case(rng, ctx.quick)) for _ in range(ctx.pick(5, 40))] + \
-            [("disjoint", gen_disjoint_case(rng, ctx.quick)) for _ in range(ctx.pick(6, 60))]
+            [("disjoint", gen_disjoint_case(rng, ctx.quick)) for _ in range(ctx.pick(6, 60))] + \
+            [("pruned", gen_pruned_case(rng)) for _ in range(ctx.pick(10, 150))]
+    cases = [(kind, spell_weights(rng, case) if "weights_text" not in case else case) for kind, case in cases]
     kinds = {}
     results = []
     for kind, case in cases:
@@ -696,16 +749,18 @@ def is_known(ctx, sig):
 
 
 def dump(case):
-    d = {"comps": [{"corpus": c["corpus"].hex(), "order": c["order"]} for c in case["comps"]], "weights": case["weights"]}
-    for k in ("mem", "mem2"):
+    d = {"comps": [dict({"corpus": c["corpus"].hex(), "order": c["order"]}, **({"prune": c["prune"]} if c.get("prune") else {})) for c in case["comps"]],
+         "weights": case["weights"]}
+    for k in ("mem", "mem2", "weights_text"):
         if k in case:
             d[k] = case[k]
     return d
 
 
 def undump(c):
-    d = {"comps": [{"corpus": bytes.fromhex(x["corpus"]), "order": x["order"]} for x in c["comps"]], "weights": c["weights"]}
-    for k in ("mem", "mem2"):
+    d = {"comps": [dict({"corpus": bytes.fromhex(x["corpus"]), "order": x["order"]}, **({"prune": x["prune"]} if x.get("prune") else {})) for x in c["comps"]],
+         "weights": c["weights"]}
+    for k in ("mem", "mem2", "weights_text"):
         if k in c:
             d[k] = c[k]
     return d
